@@ -19,10 +19,12 @@ Record flags := {
   fixed_P8 : bool;          (* untrack skips targets that are not in the workspace / directory records *)
   fixed_mv_absent : bool;   (* move of a copy-method file whose source is absent rechecks the destination *)
   fixed_P45 : bool;         (* move refuses to remove (not rename) a source whose content has no cache object *)
-  fixed_P47 : bool          (* untrack leaves a link whose object is not in the cache as it is instead of panicking *)
+  fixed_P47 : bool;         (* untrack leaves a link whose object is not in the cache as it is instead of panicking *)
+  fixed_P3 : bool           (* copy / move put the content at the cache address of the destination (another extension =
+                               another address) and stop before any record changes when it is not in the cache *)
 }.
-Definition as_is : flags := {| fixed_P7 := false; fixed_P8 := false; fixed_mv_absent := false; fixed_P45 := false; fixed_P47 := false |}.
-Definition all_fixed : flags := {| fixed_P7 := true; fixed_P8 := true; fixed_mv_absent := true; fixed_P45 := true; fixed_P47 := true |}.
+Definition as_is : flags := {| fixed_P7 := false; fixed_P8 := false; fixed_mv_absent := false; fixed_P45 := false; fixed_P47 := false; fixed_P3 := false |}.
+Definition all_fixed : flags := {| fixed_P7 := true; fixed_P8 := true; fixed_mv_absent := true; fixed_P45 := true; fixed_P47 := true; fixed_P3 := true |}.
 
 Record xrepo := { base : repo; dirs : list path }.
 Definition xinit (a : algo) (m : method) (t : tob) : xrepo := {| base := init_repo a m t; dirs := [] |}.
@@ -197,6 +199,46 @@ Definition copy_cmd (o : copy_opts) (src dst : bytes) (r : xrepo) : xrepo * outc
   | CPlanned plan skipped => copy_apply o r plan skipped
   end.
 
+(* ---- the repair of P3 ------------------------------------------------------------------------------ *)
+(* copy_cache_file_for_path: the object of digest d at the address of path s is copied to the address of
+   path p (the same digest directory, another extension) when that address has no object yet: a new
+   regular file (fs::copy under a temporary name, read-only, renamed), the directory is left read-only;
+   the object at the address of s stays.  Nothing happens when the address of p has an object already or
+   when the one of s has none (this covers equal addresses) *)
+Definition share_object (f : fsys) (s p : path) (d : digest) : fsys :=
+  if obj_exists f (cache_addr p d) then f
+  else match obj_read f (cache_addr s d) with
+       | None => f
+       | Some c =>
+           let '(i, f1) := fresh_ino (tick f) in
+           dput (oput (iput f1 i (mk_inode c false (clock f1))) (cache_addr p d) (EFile i)) d false
+       end.
+(* cache_file_available_for_path *)
+Definition available (f : fsys) (s p : path) (d : digest) : bool :=
+  obj_exists f (cache_addr p d) || obj_exists f (cache_addr s d).
+
+(* copy: a destination that will be rechecked needs the content; then every pair's current digest is shared *)
+Definition copy_unavailable (o : copy_opts) (r : xrepo) (plan : list cpair) : bool :=
+  negb (c_no_recheck o) &&
+  existsb (fun c => match r_digest (cs_rec c) with
+                    | Some d => negb (available (xfs r) (r_path (cs_rec c)) (cd_path c) d)
+                    | None => false
+                    end) plan.
+Definition share_pair (f : fsys) (c : cpair) : fsys :=
+  match r_digest (cs_rec c) with
+  | Some d => share_object f (r_path (cs_rec c)) (cd_path c) d
+  | None => f
+  end.
+Definition copy_cmd3 (fl : flags) (o : copy_opts) (src dst : bytes) (r : xrepo) : xrepo * outcome :=
+  match copy_plan o src dst r with
+  | CRefused oc => (r, oc)
+  | CPlanned plan skipped =>
+      if fixed_P3 fl then
+        if copy_unavailable o r plan then (r, Err)
+        else copy_apply o (set_xfs r (fold_left share_pair plan (xfs r))) plan skipped
+      else copy_apply o r plan skipped
+  end.
+
 (* ---- move ------------------------------------------------------------------------------------------- *)
 Record move_opts := { m_as : option method; m_no_recheck : bool }.
 
@@ -288,9 +330,30 @@ Definition move_uncommitted (o : move_opts) (r : xrepo) (l : list (N * frec * pa
     let renamed := negb (m_no_recheck o) && method_eqb sm Copy && method_eqb dm Copy in
     negb renamed && ws_exists (xfs r) (r_path x) &&
     negb (match r_digest x with Some dg => obj_exists (xfs r) (cache_addr d dg) | None => false end)) l.
+(* with the repair of P3 the pre-check asks for the content at the address of the destination OR of the
+   source, also for a destination that is rechecked because its source is absent from the workspace; then
+   every version of the entity's digest history (all Add events of its content digest) is shared *)
+Definition move_unavailable (o : move_opts) (r : xrepo) (l : list (N * frec * path)) : bool :=
+  existsb (fun ed : N * frec * path =>
+    let '(e, x, d) := ed in
+    let sm := r_method x in
+    let dm := match m_as o with Some m => m | None => sm end in
+    let inws := ws_exists (xfs r) (r_path x) in
+    let renamed := negb (m_no_recheck o) && inws && method_eqb sm Copy && method_eqb dm Copy in
+    let removed := negb renamed && inws in
+    let rechecked := negb renamed && negb (m_no_recheck o) in
+    (removed || rechecked) &&
+    negb (match r_digest x with Some dg => available (xfs r) (r_path x) d dg | None => false end)) l.
+Definition share_moved (f : fsys) (ed : N * frec * path) : fsys :=
+  let '(e, x, d) := ed in
+  fold_left (fun f dg => share_object f (r_path x) d dg) (rev (r_hist x)) f.
 Definition move_cmd45 (fl : flags) (o : move_opts) (src dst : bytes) (r : xrepo) : xrepo * outcome :=
   match move_plan src dst r with
-  | MPlanned l => if fixed_P45 fl && move_uncommitted o r l then (r, Err) else move_cmd fl o src dst r
+  | MPlanned l =>
+      if fixed_P3 fl then
+        if move_unavailable o r l then (r, Err)
+        else move_apply fl o (set_xfs r (fold_left share_moved l (xfs r))) l
+      else if fixed_P45 fl && move_uncommitted o r l then (r, Err) else move_cmd fl o src dst r
   | MRefused _ => move_cmd fl o src dst r
   end.
 
@@ -416,7 +479,7 @@ Inductive xitem :=
 Definition do_xitem (fl : flags) (r : xrepo) (it : xitem) : xrepo * outcome :=
   match it with
   | XBase i => let '(b, oc) := do_item (base r) i in (set_base r b, oc)
-  | XCopy o s d => copy_cmd o s d r
+  | XCopy o s d => copy_cmd3 fl o s d r
   | XMove o s d => move_cmd45 fl o s d r
   | XRemove o ts => remove_cmd o ts r
   | XUntrack ts => untrack_cmd fl ts r
